@@ -261,6 +261,10 @@ def d3_validation(ctx):
     neg = [g for s, g in rs if 'ev < 0' in g or '< 0' in g]
     ev = any(isinstance(c, ast.Call) and (cov.dotted(c.func) or '') in ('numpy.linalg.eigvalsh', 'numpy.linalg.eigvals', 'numpy.linalg.eigh') for c in walk(fc))
     ctx.check(rule, 'covobs.py:Covobs._set_cov#rejects[indefinite]', bool(neg) and ev, 'matrices with a negative eigenvalue are rejected', 'no eigenvalue sign test guards a raise', cov.loc(fc))
+    # ... for every accepted input form (number, list of variances, matrix): the sign test must not sit under a test of the rank
+    under = [g for s, g in rs if ('ev < 0' in g or '< 0' in g) and 'ndim' in g]
+    ctx.check(rule, 'covobs.py:Covobs._set_cov#rejects[indefinite]-all-forms', bool(neg) and not under, 'the sign test applies to scalar, diagonal and full input alike',
+              'the eigenvalue sign test is only reached under `%s`: a negative variance given as a number or as a list of variances is accepted' % (under[0] if under else ''), cov.loc(fc))
     sq = [g for s, g in rs if 'shape[1] != self.N' in g or 'shape[0] !=' in g]
     ctx.check(rule, 'covobs.py:Covobs._set_cov#rejects[non-square]', bool(sq), 'non-square matrices are rejected', 'no squareness test', cov.loc(fc))
     called = any(isinstance(c, ast.Call) and unparse(c.func) == 'self._set_cov' for c in walk(fi))
@@ -421,6 +425,7 @@ def run(ctx):
 
 
 SELFTEST = [
+    ('definiteness-only-for-matrices', 'pyerrors/covobs.py', "        evals = np.linalg.eigvalsh(self._cov)\n        for ev in evals:\n            if ev < 0:\n                raise Exception('Covariance matrix is not positive-semidefinite!')", "        if np.array(cov).ndim == 2:\n            evals = np.linalg.eigvalsh(self._cov)\n            for ev in evals:\n                if ev < 0:\n                    raise Exception('Covariance matrix is not positive-semidefinite!')", 'C04-D3'),
     ('fix-reverted-descending-range', 'pyerrors/obs.py', "                    if idx.step < 0:\n                        raise ValueError(\"Unsorted idx for idl[%s]\" % (name))\n", "", 'C04-D3'),
     ('range-shortcut-before-order-tests', 'pyerrors/obs.py', "                    if np.any(dc < 0):", "                    if len(dc) == 1:\n                        self.idl[name] = range(idx[0], idx[-1] + dc[0], dc[0])\n                        continue\n                    if np.any(dc < 0):", 'C04-D3'),
     ('fix-reverted-sub', 'pyerrors/obs.py', "            elif isinstance(y, complex):\n                return CObs(self, 0) - y\n", "", 'C04-D1'),
